@@ -183,6 +183,42 @@ pub fn check_tokens(toks: &[Tok], l: &mut Local) -> Outcome {
     if let Some(d) = state_diff(&obs, &model) {
         return fail(format!("C05/different effects [{}]", sig), model.describe(), d, tokens_case(toks), toks.len());
     }
+    // the natural typed entry points for sequences: a tuple through eval_tuple(), a chain ending in
+    // `;` (or any Empty result) through eval_empty(), both in a fresh context like the run above
+    match &exp_r {
+        Ok(refmodel::value::RV::Tuple(t)) => {
+            let got = vcore::catch(|| tree.eval_tuple());
+            let ok = matches!(&got, Ok(Ok(v)) if v.len() == t.len() && v.iter().zip(t).all(|(a, b)| adapt::to_rv(a).same(b)));
+            if !ok {
+                return fail(format!("C05/eval_tuple() differs [{}]", sig), outcome_canon(&exp_r), format!("{:?}", got.ok()), tokens_case(toks), toks.len());
+            }
+        },
+        Ok(refmodel::value::RV::Empty) => {
+            let got = vcore::catch(|| tree.eval_empty());
+            if !matches!(&got, Ok(Ok(()))) {
+                return fail(format!("C05/eval_empty() differs [{}]", sig), "Ok(())", format!("{:?}", got.ok()), tokens_case(toks), toks.len());
+            }
+        },
+        _ => {},
+    }
+    // the same sequence through the read-only evaluator: every element is still evaluated in order
+    // (an earlier failing element fails the chain; an assignment is reported as ContextNotMutable)
+    let mut model_imm = Ctx::new(Kind::HashMap);
+    let (exp_i, _, _) = ref_run(&expected, &mut model_imm, false, matrix::unit());
+    if !exp_i.as_ref().err().map_or(false, |e| e.is_unclaimed()) {
+        let fresh = build_hashmap(&Ctx::new(Kind::HashMap), &log);
+        if let Ok(got_i) = vcore::catch(|| map_result(&tree.eval_with_context(&fresh))) {
+            if !outcome_matches(&exp_i, &got_i) {
+                return fail(
+                    format!("C05/different value through the read-only evaluator [{}]", sig),
+                    outcome_canon(&exp_i),
+                    outcome_canon(&got_i),
+                    tokens_case(toks),
+                    toks.len(),
+                );
+            }
+        }
+    }
     Ok(())
 }
 
